@@ -25,7 +25,7 @@ SOLVERS = {
     "z3-4.8/ematch": ["/usr/bin/z3", "-smt2", "smt.mbqi=false"],
     "cvc5": ["/usr/bin/cvc5", "--lang=smt2", "--strings-exp", "--arrays-exp"],
 }
-PORTFOLIO = ("z3-5.1", "z3-5.1/ematch", "z3-4.8", "z3-5.1/arith2", "z3-4.8/ematch", "cvc5")
+PORTFOLIO = ("z3-5.1", "cvc5", "z3-5.1/ematch", "z3-4.8", "z3-5.1/arith2", "z3-4.8/ematch")
 
 
 @dataclass
@@ -268,17 +268,26 @@ def discharge(obs, outdir, timeout=20.0, portfolio=PORTFOLIO, jobs=16, extra_fue
     def work(i):
         ob = obs[i]
         res = Result(ob.name, ob.kind, "unknown", smt_file=paths[i], expect_fail=ob.expect_fail, line=ob.line, info=ob.info)
-        for solver in portfolio:
-            if solver == "cvc5" and paths[i] in _no_cvc5:
-                continue
-            st, out, dt = run_solver(solver, paths[i], min(timeout, 4.0) if ob.expect_fail else timeout)
-            res.attempts.append({"solver": solver, "status": st, "time_s": round(dt, 3)})
-            res.time_s += dt
-            if st == "unsat":
-                res.status, res.solver = "proved", solver
-                break
-            if st == "sat":
-                res.status, res.solver, res.model = "refuted", solver, out[:6000]
+        rounds = [min(timeout, 4.0)] if ob.expect_fail else [3.0, timeout]
+        decided = False
+        for rnd, tmo in enumerate(rounds):
+            for solver in (portfolio[:2] if ob.expect_fail else portfolio):
+                if solver == "cvc5" and paths[i] in _no_cvc5:
+                    continue
+                if rnd > 0 and any(a["solver"] == solver and a["status"] in ("unknown", "error") for a in res.attempts):
+                    continue  # a definite 'unknown' will not change with more time
+                st, out, dt = run_solver(solver, paths[i], tmo)
+                res.attempts.append({"solver": solver, "status": st, "time_s": round(dt, 3), "limit_s": tmo})
+                res.time_s += dt
+                if st == "unsat":
+                    res.status, res.solver = "proved", solver
+                    decided = True
+                    break
+                if st == "sat":
+                    res.status, res.solver, res.model = "refuted", solver, out[:6000]
+                    decided = True
+                    break
+            if decided:
                 break
         return i, res
 
